@@ -111,10 +111,15 @@ AffGroupOK(e, g) ==
   IN \A i \in 1..Len(g.x) : IF Fin(g.dq[i]) THEN BLe(BMulS(SDist(g.x[i], g.dq[i]), 2 * q), bound)
                               ELSE e.nonfinite_judged_by_c16
 
+\* idempotence is claimed while every non-zero group has a scale in the normal range of the format
+\* (a subnormal scale carries an absolute error that can move a code: DESIGN 7.1)
+IdemClaimed(e) ==
+  LET q == 2^e.bits - 1 IN
+  \A k \in 1..Len(e.groups) : LET h == Hull(e.groups[k].x) IN h = <<>> \/ BLe(BMulS(Pow2Ceil(e.nmin_shift + 2), q), h)
 AffOK(e) ==
   /\ \A k \in 1..Len(e.groups) : AffGroupOK(e, e.groups[k])
   /\ e.out_shape = e.shape /\ e.out_dtype = e.fmt
-  /\ e.fmt \in {"float32", "float16"} => e.payload_equal
+  /\ (e.fmt \in {"float32", "float16"} /\ IdemClaimed(e)) => e.payload_equal
 
 \* deviation (pinned tree): groups whose value range does not contain zero
 AffDevSig(e) ==
